@@ -344,13 +344,11 @@ theorem Inv_saveHead (cfg : Cfg) (σ : State) (s : Sid) (o : Obj) (rest : List O
     have h1 : Inv cfg (ensureTxn (setImmediate σ s) s).1 := Inv_ensureTxn cfg _ s (Inv_setImmediate cfg σ s h)
     by_cases hb : (ensureTxn (setImmediate σ s) s).2 = true
     · simp only [hb, Bool.not_true, Bool.false_eq_true, if_false]
-      generalize (if (cfg.sessOpt s && !((ensureTxn (setImmediate σ s) s).1.sess s).forUpd o) = true
-        then optCols cfg ((σ.sess s).objs o) else []) = cols
-      by_cases hk : (cols.any (fun a => (((σ.sess s).objs o).dbvals a).isNone) ||
-          (wAttrs cfg ((σ.sess s).objs o)).any (fun a => (((σ.sess s).objs o).vals a).isNone)) = true
+      generalize critCols cfg s (((ensureTxn (setImmediate σ s) s).1.sess s).forUpd o) ((σ.sess s).objs o) = cols
+      by_cases hk : keyMissing ((σ.sess s).objs o) cols (wAttrs cfg ((σ.sess s).objs o)) = true
       · simp only [hk, if_true]; exact Inv_failSess cfg _ s h1
       · simp only [hk]
-        by_cases hall : (cols.all fun a => ((σ.sess s).objs o).dbvals a == some (view (ensureTxn (setImmediate σ s) s).1 s o a)) = true
+        by_cases hall : whereOk (ensureTxn (setImmediate σ s) s).1 s o ((σ.sess s).objs o) cols = true
         · simp only [hall, if_true]
           -- applied
           have himm : ((setImmediate σ s).sess s).immediate = true := by simp [setImmediate, State.withSess]
@@ -402,12 +400,12 @@ theorem Inv_query (cfg : Cfg) (σ : State) (s : Sid) (imm : Bool) (k : State →
   split
   · exact Inv_saveHead cfg σ s _ _ _ h
   · simp only
-    have h0 : Inv cfg (if imm then setImmediate σ s else σ) := by
+    have h0 : Inv cfg (setImmIf σ s imm) := by
       cases imm
-      · simpa using h
-      · simpa using Inv_setImmediate cfg σ s h
+      · simpa [setImmIf] using h
+      · simpa [setImmIf] using Inv_setImmediate cfg σ s h
     have h1 := Inv_ensureTxn cfg _ s h0
-    by_cases hb : (ensureTxn (if imm = true then setImmediate σ s else σ) s).2 = true
+    by_cases hb : (ensureTxn (setImmIf σ s imm) s).2 = true
     · simp only [hb, Bool.not_true, Bool.false_eq_true, if_false]; exact hk _ h1
     · simp only [hb]; simpa using h1
 
@@ -562,6 +560,12 @@ theorem setImmediate_sess (σ : State) (s : Sid) :
     ∧ (setImmediate σ s).store = σ.store := by
   simp [setImmediate, State.withSess]
 
+theorem setImmIf_sess (σ : State) (s : Sid) (imm : Bool) :
+    ((setImmIf σ s imm).sess s).objs = (σ.sess s).objs ∧ ((setImmIf σ s imm).sess s).pend = (σ.sess s).pend
+    ∧ ((setImmIf σ s imm).sess s).forUpd = (σ.sess s).forUpd ∧ ((setImmIf σ s imm).sess s).toSave = (σ.sess s).toSave
+    ∧ (setImmIf σ s imm).store = σ.store := by
+  cases imm <;> simp [setImmIf, setImmediate, State.withSess]
+
 theorem wake_sess (σ : State) (s : Sid) :
     ((wake σ s).sess s).objs = (σ.sess s).objs ∧ ((wake σ s).sess s).pend = (σ.sess s).pend
     ∧ ((wake σ s).sess s).forUpd = (σ.sess s).forUpd ∧ ((wake σ s).sess s).toSave = (σ.sess s).toSave
@@ -583,6 +587,12 @@ def WhereHeld (cfg : Cfg) (σ : State) (s : Sid) (o : Obj) : Prop :=
   ∀ a, a ∈ cfg.attrs → cfg.sessOpt s = true → (σ.sess s).forUpd o = false →
     ((σ.sess s).objs o).rbits a = true → cfg.attrOpt a = true → ((σ.sess s).objs o).dbvals a = some (view σ s o a)
 
+theorem forUpd_prep (σ : State) (s : Sid) : ((ensureTxn (setImmediate σ s) s).1.sess s).forUpd = (σ.sess s).forUpd := by
+  rw [(ensureTxn_sess _ s).2.2.1, (setImmediate_sess σ s).2.2.1]
+
+theorem store_prep (σ : State) (s : Sid) : (ensureTxn (setImmediate σ s) s).1.store = σ.store := by
+  rw [(ensureTxn_sess _ s).2.2.2.2, (setImmediate_sess σ s).2.2.2.2]
+
 theorem saveHead_applied (cfg : Cfg) (σ : State) (s : Sid) (o' : Obj) (rest : List Obj) (done : Res) (o : Obj)
     (h : (saveHead cfg σ s o' rest done).2.upd = some o) : o' = o ∧ WhereHeld cfg σ s o := by
   unfold saveHead at h
@@ -592,45 +602,45 @@ theorem saveHead_applied (cfg : Cfg) (σ : State) (s : Sid) (o' : Obj) (rest : L
   · simp only [hw] at h
     by_cases hb : (ensureTxn (setImmediate σ s) s).2 = true
     · simp only [hb, Bool.not_true, Bool.false_eq_true, if_false] at h
-      have hfu : ((ensureTxn (setImmediate σ s) s).1.sess s).forUpd = (σ.sess s).forUpd := by
-        rw [(ensureTxn_sess _ s).2.2.1, (setImmediate_sess σ s).2.2.1]
-      rw [hfu] at h
-      by_cases hk : ((if (cfg.sessOpt s && !(σ.sess s).forUpd o') = true then optCols cfg ((σ.sess s).objs o') else []).any
-            (fun a => (((σ.sess s).objs o').dbvals a).isNone) ||
-          (wAttrs cfg ((σ.sess s).objs o')).any (fun a => (((σ.sess s).objs o').vals a).isNone)) = true
+      rw [forUpd_prep] at h
+      by_cases hk : keyMissing ((σ.sess s).objs o') (critCols cfg s ((σ.sess s).forUpd o') ((σ.sess s).objs o'))
+          (wAttrs cfg ((σ.sess s).objs o')) = true
       · simp [hk] at h
       · simp only [hk] at h
-        by_cases hall : ((if (cfg.sessOpt s && !(σ.sess s).forUpd o') = true then optCols cfg ((σ.sess s).objs o') else []).all
-            fun a => ((σ.sess s).objs o').dbvals a == some (view (ensureTxn (setImmediate σ s) s).1 s o' a)) = true
+        by_cases hall : whereOk (ensureTxn (setImmediate σ s) s).1 s o' ((σ.sess s).objs o')
+            (critCols cfg s ((σ.sess s).forUpd o') ((σ.sess s).objs o')) = true
         · simp only [hall, if_true] at h
           have ho : o' = o := Option.some.inj h
           subst ho
           refine ⟨rfl, ?_⟩
           intro a ha hopt hf hr hao
-          simp only [hopt, hf, Bool.not_false, Bool.and_self, if_true] at hall
+          simp only [whereOk, critCols, hopt, hf, Bool.not_false, Bool.and_self, if_true] at hall
           have hm : a ∈ optCols cfg ((σ.sess s).objs o') := by
             unfold optCols; exact List.mem_filter.mpr ⟨ha, by simp [hr, hao]⟩
           have := List.all_eq_true.mp hall a hm
           rw [view_prep] at this
           simpa using this
-        · simp [hall] at h
+        · simp only [hall] at h; simp at h
     · simp [hb] at h
 
 theorem saveHead_store (cfg : Cfg) (σ : State) (s : Sid) (o : Obj) (rest : List Obj) (done : Res) :
     (saveHead cfg σ s o rest done).1.store = σ.store := by
-  have he := ensureTxn_sess (setImmediate σ s) s
-  have hi := setImmediate_sess σ s
+  have hst := store_prep σ s
   unfold saveHead
   simp only
-  split
-  · rfl
-  · split
-    · rw [he.2.2.2.2, hi.2.2.2.2]
-    · split
-      · simp [failSess, he.2.2.2.2, hi.2.2.2.2]
-      · split
-        · simp [State.withSess, he.2.2.2.2, hi.2.2.2.2]
-        · simp [failSess, he.2.2.2.2, hi.2.2.2.2]
+  by_cases hw : (wAttrs cfg ((σ.sess s).objs o)).isEmpty = true
+  · simp only [hw, if_true]; rfl
+  · simp only [hw]
+    by_cases hb : (ensureTxn (setImmediate σ s) s).2 = true
+    · simp only [hb, Bool.not_true, Bool.false_eq_true, if_false]
+      generalize critCols cfg s (((ensureTxn (setImmediate σ s) s).1.sess s).forUpd o) ((σ.sess s).objs o) = cols
+      by_cases hk : keyMissing ((σ.sess s).objs o) cols (wAttrs cfg ((σ.sess s).objs o)) = true
+      · simp only [hk, if_true]; simpa [failSess] using hst
+      · simp only [hk]
+        by_cases hall : whereOk (ensureTxn (setImmediate σ s) s).1 s o ((σ.sess s).objs o) cols = true
+        · simp only [hall, if_true]; simpa [State.withSess] using hst
+        · simp only [hall]; simpa [failSess] using hst
+    · simp only [hb]; simpa using hst
 
 theorem failSess_sess (cfg : Cfg) (σ : State) (s : Sid) : (failSess cfg σ s).sess s = Sess.fresh cfg s := by
   simp [failSess]
@@ -641,53 +651,56 @@ theorem saveHead_failed (cfg : Cfg) (σ : State) (s : Sid) (o : Obj) (rest : Lis
     (saveHead cfg σ s o rest done).1.sess s = Sess.fresh cfg s ∧ (saveHead cfg σ s o rest done).2.upd = none := by
   unfold saveHead at h ⊢
   simp only at h ⊢
-  split
-  · rename_i hw; simp [hw, hd] at h
-  · rename_i hw
-    simp only [hw] at h
-    split
-    · rename_i hb; simp [hb, Res.failed] at h
-    · rename_i hb
-      simp only [hb] at h
-      split
-      · exact ⟨failSess_sess cfg _ s, rfl⟩
-      · rename_i hk
-        simp only [hk] at h
-        split
-        · rename_i hall; simp [hall, hd] at h
-        · exact ⟨failSess_sess cfg _ s, rfl⟩
+  by_cases hw : (wAttrs cfg ((σ.sess s).objs o)).isEmpty = true
+  · simp [hw, hd] at h
+  · simp only [hw] at h ⊢
+    by_cases hb : (ensureTxn (setImmediate σ s) s).2 = true
+    · simp only [hb, Bool.not_true, Bool.false_eq_true, if_false] at h ⊢
+      generalize critCols cfg s (((ensureTxn (setImmediate σ s) s).1.sess s).forUpd o) ((σ.sess s).objs o) = cols at h ⊢
+      by_cases hk : keyMissing ((σ.sess s).objs o) cols (wAttrs cfg ((σ.sess s).objs o)) = true
+      · simp only [hk, if_true]; exact ⟨failSess_sess cfg _ s, trivial⟩
+      · simp only [hk] at h ⊢
+        by_cases hall : whereOk (ensureTxn (setImmediate σ s) s).1 s o ((σ.sess s).objs o) cols = true
+        · simp [hall, hd] at h
+        · simp only [hall, Bool.false_eq_true, if_false]; exact ⟨failSess_sess cfg _ s, trivial⟩
+    · simp [hb, Res.failed] at h
+
+theorem keyMissing_false (cfg : Cfg) (os : ObjSt) (s : Sid) (locked : Bool) (hO : ObjInv cfg os) :
+    keyMissing os (critCols cfg s locked os) (wAttrs cfg os) = false := by
+  unfold keyMissing
+  rw [Bool.or_eq_false_iff]
+  constructor
+  · rw [List.any_eq_false]
+    intro a ha
+    unfold critCols at ha
+    split at ha
+    · have := (List.mem_filter.mp ha).2
+      simp only [Bool.and_eq_true] at this
+      have := ((hO a).2.2.1 this.1).1
+      cases hv : os.dbvals a <;> simp_all
+    · simp at ha
+  · rw [List.any_eq_false]
+    intro a ha
+    have := (List.mem_filter.mp ha).2
+    have := ((hO a).2.1 this).1
+    cases hv : os.vals a <;> simp_all
 
 theorem saveHead_no_keyError (cfg : Cfg) (σ : State) (s : Sid) (o : Obj) (rest : List Obj) (done : Res)
     (hi : Inv cfg σ) (hd : done ≠ .keyError) : (saveHead cfg σ s o rest done).2.res ≠ .keyError := by
   have hO := (hi.1 s).1 o
   unfold saveHead
   simp only
-  split
-  · exact hd
-  · split
-    · simp
-    · have hk : ((if (cfg.sessOpt s && !((ensureTxn (setImmediate σ s) s).1.sess s).forUpd o) = true
-            then optCols cfg ((σ.sess s).objs o) else []).any (fun a => (((σ.sess s).objs o).dbvals a).isNone) ||
-          (wAttrs cfg ((σ.sess s).objs o)).any (fun a => (((σ.sess s).objs o).vals a).isNone)) = false := by
-        rw [Bool.or_eq_false_iff]
-        constructor
-        · rw [List.any_eq_false]
-          intro a ha
-          split at ha
-          · have := (List.mem_filter.mp ha).2
-            simp only [Bool.and_eq_true] at this
-            have := ((hO a).2.2.1 this.1).1
-            cases hv : ((σ.sess s).objs o).dbvals a <;> simp_all
-          · simp at ha
-        · rw [List.any_eq_false]
-          intro a ha
-          have := (List.mem_filter.mp ha).2
-          have := ((hO a).2.1 this).1
-          cases hv : ((σ.sess s).objs o).vals a <;> simp_all
-      simp only [hk, Bool.false_eq_true, if_false]
-      split
-      · exact hd
-      · simp
+  by_cases hw : (wAttrs cfg ((σ.sess s).objs o)).isEmpty = true
+  · simp only [hw, if_true]; exact hd
+  · simp only [hw]
+    by_cases hb : (ensureTxn (setImmediate σ s) s).2 = true
+    · simp only [hb, Bool.not_true, Bool.false_eq_true, if_false]
+      simp only [keyMissing_false cfg _ s _ hO, Bool.false_eq_true, if_false]
+      by_cases hall : whereOk (ensureTxn (setImmediate σ s) s).1 s o ((σ.sess s).objs o)
+          (critCols cfg s (((ensureTxn (setImmediate σ s) s).1.sess s).forUpd o) ((σ.sess s).objs o)) = true
+      · simp only [hall, if_true]; exact hd
+      · simp only [hall]; simp
+    · simp [hb]
 
 /-- the refusal: a read attribute whose row value differs from `_dbvals_` makes the UPDATE match no row -/
 theorem saveHead_refused (cfg : Cfg) (σ : State) (s : Sid) (o : Obj) (rest : List Obj) (done : Res) (a : Attr) (v : Val)
@@ -696,33 +709,289 @@ theorem saveHead_refused (cfg : Cfg) (σ : State) (s : Sid) (o : Obj) (rest : Li
     (hne : view σ s o a ≠ v) (hw : wAttrs cfg ((σ.sess s).objs o) ≠ []) :
     ((saveHead cfg σ s o rest done).2.res = .blocked ∨ (saveHead cfg σ s o rest done).2.res = .optimisticCheckError)
     ∧ (saveHead cfg σ s o rest done).2.upd = none := by
-  have hnk := saveHead_no_keyError cfg σ s o rest .flushing hi (by simp)
-  have hfu' : ((ensureTxn (setImmediate σ s) s).1.sess s).forUpd = (σ.sess s).forUpd := by
-    rw [(ensureTxn_sess _ s).2.2.1, (setImmediate_sess σ s).2.2.1]
-  unfold saveHead at hnk ⊢
-  simp only at hnk ⊢
+  have hO := (hi.1 s).1 o
+  unfold saveHead
+  simp only
   have hwe : (wAttrs cfg ((σ.sess s).objs o)).isEmpty = false := by
     cases hl : wAttrs cfg ((σ.sess s).objs o) with
     | nil => exact absurd hl hw
     | cons _ _ => rfl
-  simp only [hwe, Bool.false_eq_true, if_false] at hnk ⊢
+  simp only [hwe, Bool.false_eq_true, if_false]
   by_cases hb : (ensureTxn (setImmediate σ s) s).2 = true
-  · simp only [hb, Bool.not_true, Bool.false_eq_true, if_false] at hnk ⊢
-    rw [hfu'] at hnk ⊢
-    simp only [hopt, hfu, Bool.not_false, Bool.and_self, if_true] at hnk ⊢
-    by_cases hk : ((optCols cfg ((σ.sess s).objs o)).any (fun a => (((σ.sess s).objs o).dbvals a).isNone) ||
-          (wAttrs cfg ((σ.sess s).objs o)).any (fun a => (((σ.sess s).objs o).vals a).isNone)) = true
-    · simp [hk] at hnk
-    · simp only [hk]
-      have hall : ((optCols cfg ((σ.sess s).objs o)).all
-          fun a => ((σ.sess s).objs o).dbvals a == some (view (ensureTxn (setImmediate σ s) s).1 s o a)) = false := by
-        rw [List.all_eq_false]
-        refine ⟨a, ?_, ?_⟩
-        · unfold optCols; exact List.mem_filter.mpr ⟨ha, by simp [hr, hao]⟩
-        · rw [view_prep, hdv]
-          simp only [beq_iff_eq, Option.some.injEq]
-          exact fun h => hne h.symm
-      simp [hall]
+  · simp only [hb, Bool.not_true, Bool.false_eq_true, if_false]
+    simp only [keyMissing_false cfg _ s _ hO, Bool.false_eq_true, if_false]
+    have hall : whereOk (ensureTxn (setImmediate σ s) s).1 s o ((σ.sess s).objs o)
+        (critCols cfg s (((ensureTxn (setImmediate σ s) s).1.sess s).forUpd o) ((σ.sess s).objs o)) = false := by
+      rw [forUpd_prep]
+      simp only [whereOk, critCols, hopt, hfu, Bool.not_false, Bool.and_self, if_true]
+      rw [List.all_eq_false]
+      refine ⟨a, ?_, ?_⟩
+      · unfold optCols; exact List.mem_filter.mpr ⟨ha, by simp [hr, hao]⟩
+      · rw [view_prep, hdv]
+        simp only [beq_iff_eq, Option.some.injEq]
+        exact fun h => hne h.symm
+    simp [hall]
   · simp [hb]
+
+/-! ### step-level consequences -/
+
+theorem WhereHeld_wake (cfg : Cfg) (σ : State) (s : Sid) (o : Obj) (h : WhereHeld cfg (wake σ s) s o) : WhereHeld cfg σ s o := by
+  have hw := wake_sess σ s
+  intro a ha hopt hf hr hao
+  have := h a ha hopt (by rw [hw.2.2.1]; exact hf) (by rw [hw.1]; exact hr) hao
+  rw [hw.1, view_congr σ (wake σ s) s o a hw.2.1 hw.2.2.2.2] at this
+  exact this
+
+theorem query_applied (cfg : Cfg) (σ : State) (s : Sid) (imm : Bool) (k : State → State × Out) (o : Obj)
+    (hk : ∀ σ1, (k σ1).2.upd = none) (h : (query cfg σ s imm k).2.upd = some o) :
+    (∃ rest, (σ.sess s).toSave = o :: rest) ∧ WhereHeld cfg σ s o := by
+  unfold query at h
+  split at h
+  · rename_i o' rest hts
+    have := saveHead_applied cfg σ s o' rest .flushing o h
+    exact ⟨⟨rest, by rw [hts, this.1]⟩, this.2⟩
+  · simp only at h
+    split at h
+    · simp at h
+    · rw [hk] at h; simp at h
+
+theorem fetchK_upd (cfg : Cfg) (s : Sid) (o : Obj) (as : List Attr) (fu : Bool) (σ1 : State) :
+    (match fetchRow σ1 s o as fu with
+      | none => (failSess cfg σ1 s, (⟨.unrepeatableRead, none⟩ : Out))
+      | some σ2 => (σ2, okOut)).2.upd = none := by
+  split <;> rfl
+
+theorem step_applied (cfg : Cfg) (σ : State) (s : Sid) (act : Action) (o : Obj)
+    (h : (step cfg σ s act).2.upd = some o) : (∃ rest, (σ.sess s).toSave = o :: rest) ∧ WhereHeld cfg σ s o := by
+  cases act with
+  | get o' fu =>
+    simp only [step] at h
+    split at h
+    · simp [okOut] at h
+    · have := query_applied cfg (wake σ s) s fu _ o (fetchK_upd cfg s o' _ fu) h
+      exact ⟨by simpa [(wake_sess σ s).2.2.2.1] using this.1, WhereHeld_wake cfg σ s o this.2⟩
+  | fetch o' as =>
+    simp only [step] at h
+    have := query_applied cfg (wake σ s) s false _ o (fetchK_upd cfg s o' _ false) h
+    exact ⟨by simpa [(wake_sess σ s).2.2.2.1] using this.1, WhereHeld_wake cfg σ s o this.2⟩
+  | read o' a =>
+    simp only [step] at h
+    split at h
+    · simp at h
+    · split at h
+      · simp [okOut] at h
+      · refine query_applied cfg σ s false _ o ?_ h
+        intro σ1
+        split
+        · rfl
+        · split <;> rfl
+  | write o' a v =>
+    simp only [step] at h
+    split at h <;> simp [okOut] at h
+  | flush =>
+    simp only [step] at h
+    split at h
+    · simp [okOut] at h
+    · rename_i o' rest hts
+      have := saveHead_applied cfg σ s o' rest _ o h
+      exact ⟨⟨rest, by rw [hts, this.1]⟩, this.2⟩
+  | commit =>
+    simp only [step] at h
+    split at h
+    · rename_i o' rest hts
+      have := saveHead_applied cfg σ s o' rest _ o h
+      exact ⟨⟨rest, by rw [hts, this.1]⟩, this.2⟩
+    · split at h <;> simp [okOut] at h
+  | close =>
+    simp only [step] at h
+    split at h
+    · rename_i o' rest hts
+      have := saveHead_applied cfg σ s o' rest _ o h
+      exact ⟨⟨rest, by rw [hts, this.1]⟩, this.2⟩
+    · simp [okOut] at h
+  | rollback => simp [step, okOut] at h
+
+theorem fetchRow_store (σ σ2 : State) (s : Sid) (o : Obj) (as : List Attr) (fu : Bool)
+    (h : fetchRow σ s o as fu = some σ2) : σ2.store = σ.store := by
+  unfold fetchRow at h
+  simp only at h
+  split at h
+  · simp at h
+  · have := Option.some.inj h; subst this; rfl
+
+theorem failSess_store (cfg : Cfg) (σ : State) (s : Sid) : (failSess cfg σ s).store = σ.store := rfl
+
+theorem query_store (cfg : Cfg) (σ : State) (s : Sid) (imm : Bool) (k : State → State × Out)
+    (hk : ∀ σ1, (k σ1).1.store = σ1.store) : (query cfg σ s imm k).1.store = σ.store := by
+  unfold query
+  split
+  · exact saveHead_store cfg σ s _ _ _
+  · simp only
+    have he : (ensureTxn (setImmIf σ s imm) s).1.store = σ.store := by
+      rw [(ensureTxn_sess _ s).2.2.2.2]
+      exact (setImmIf_sess σ s imm).2.2.2.2
+    split
+    · exact he
+    · rw [hk, he]
+
+theorem fetchK_store (cfg : Cfg) (s : Sid) (o : Obj) (as : List Attr) (fu : Bool) (σ1 : State) :
+    (match fetchRow σ1 s o as fu with
+      | none => (failSess cfg σ1 s, (⟨.unrepeatableRead, none⟩ : Out))
+      | some σ2 => (σ2, okOut)).1.store = σ1.store := by
+  split
+  · rfl
+  · rename_i σ2 hf; exact fetchRow_store σ1 σ2 s o as fu hf
+
+/-- committed rows change only in the COMMIT step of a session whose flush is complete, and then to what that session saw -/
+theorem step_store (cfg : Cfg) (σ : State) (s : Sid) (act : Action) :
+    (step cfg σ s act).1.store = σ.store ∨
+    ((σ.sess s).toSave = [] ∧ (σ.sess s).inTxn = true ∧ (step cfg σ s act).2.res = .ok none ∧
+      (step cfg σ s act).1.store = fun o a => view σ s o a) := by
+  cases act with
+  | get o fu =>
+    left
+    simp only [step]
+    split
+    · exact (wake_sess σ s).2.2.2.2
+    · exact (query_store cfg _ s fu _ (fetchK_store cfg s o _ fu)).trans (wake_sess σ s).2.2.2.2
+  | fetch o as =>
+    left
+    simp only [step]
+    exact (query_store cfg _ s false _ (fetchK_store cfg s o _ false)).trans (wake_sess σ s).2.2.2.2
+  | read o a =>
+    left
+    simp only [step]
+    split
+    · rfl
+    · split
+      · rfl
+      · apply query_store
+        intro σ1
+        split
+        · rfl
+        · rename_i σ2 hf
+          have := fetchRow_store σ1 σ2 s o _ false hf
+          split
+          · exact this
+          · exact this
+  | write o a v =>
+    left
+    simp only [step]
+    split <;> rfl
+  | flush =>
+    left
+    simp only [step]
+    split
+    · rfl
+    · exact saveHead_store cfg σ s _ _ _
+  | commit =>
+    simp only [step]
+    split
+    · left; exact saveHead_store cfg σ s _ _ _
+    · rename_i hts
+      split
+      · cases hi : (σ.sess s).inTxn with
+        | false => left; simp [commitTxn, hi, State.withSess]
+        | true => right; exact ⟨hts, rfl, rfl, by simp [commitTxn, hi, State.withSess]⟩
+      · left; rfl
+  | close =>
+    simp only [step]
+    split
+    · left; exact saveHead_store cfg σ s _ _ _
+    · rename_i hts
+      cases hi : (σ.sess s).inTxn with
+      | false => left; simp [commitTxn, hi, State.withSess]
+      | true => right; exact ⟨hts, rfl, rfl, by simp [commitTxn, hi, State.withSess]⟩
+  | rollback => left; rfl
+
+theorem query_failed (cfg : Cfg) (σ : State) (s : Sid) (imm : Bool) (k : State → State × Out)
+    (hk : ∀ σ1, (k σ1).2.res.failed = true → (k σ1).1.sess s = Sess.fresh cfg s)
+    (h : (query cfg σ s imm k).2.res.failed = true) : (query cfg σ s imm k).1.sess s = Sess.fresh cfg s := by
+  unfold query at h ⊢
+  split
+  · rename_i o rest hts
+    simp only [hts] at h
+    exact (saveHead_failed cfg σ s o rest .flushing rfl h).1
+  · rename_i hts
+    simp only [hts] at h ⊢
+    split
+    · rename_i hb; simp [hb, Res.failed] at h
+    · rename_i hb
+      simp only [hb] at h
+      exact hk _ h
+
+theorem fetchK_failed (cfg : Cfg) (s : Sid) (o : Obj) (as : List Attr) (fu : Bool) (σ1 : State)
+    (_h : (match fetchRow σ1 s o as fu with
+      | none => (failSess cfg σ1 s, (⟨.unrepeatableRead, none⟩ : Out))
+      | some σ2 => (σ2, okOut)).2.res.failed = true) :
+    (match fetchRow σ1 s o as fu with
+      | none => (failSess cfg σ1 s, (⟨.unrepeatableRead, none⟩ : Out))
+      | some σ2 => (σ2, okOut)).1.sess s = Sess.fresh cfg s := by
+  split at _h
+  · rename_i hf; simp only [hf]; exact failSess_sess cfg σ1 s
+  · simp [okOut, Res.failed] at _h
+
+/-- an optimistic-check / repeatable-read error ends the session: its cache is discarded (rollback) -/
+theorem step_failed (cfg : Cfg) (σ : State) (s : Sid) (act : Action) (h : (step cfg σ s act).2.res.failed = true) :
+    (step cfg σ s act).1.sess s = Sess.fresh cfg s := by
+  cases act with
+  | get o fu =>
+    simp only [step] at h ⊢
+    split
+    · rename_i hc; simp [hc, okOut, Res.failed] at h
+    · rename_i hc
+      simp only [hc] at h
+      exact query_failed cfg _ s fu _ (fetchK_failed cfg s o _ fu) h
+  | fetch o as =>
+    simp only [step] at h ⊢
+    exact query_failed cfg _ s false _ (fetchK_failed cfg s o _ false) h
+  | read o a =>
+    simp only [step] at h ⊢
+    split
+    · rename_i hc; simp [hc, Res.failed] at h
+    · rename_i hc
+      simp only [hc] at h
+      split
+      · rename_i v hv; simp [hv, okOut, Res.failed] at h
+      · rename_i hv
+        simp only [hv] at h
+        refine query_failed cfg σ s false _ ?_ h
+        intro σ1 h1
+        split
+        · exact failSess_sess cfg σ1 s
+        · rename_i σ2 hf
+          simp only [hf] at h1
+          split
+          · exact failSess_sess cfg σ2 s
+          · rename_i v hv2; simp [hv2, okOut, Res.failed] at h1
+  | write o a v =>
+    simp only [step] at h
+    split at h <;> simp [okOut, Res.failed] at h
+  | flush =>
+    simp only [step] at h ⊢
+    split
+    · rename_i hts; simp [hts, okOut, Res.failed] at h
+    · rename_i o rest hts
+      simp only [hts] at h
+      refine (saveHead_failed cfg σ s o rest _ ?_ h).1
+      split <;> rfl
+  | commit =>
+    simp only [step] at h ⊢
+    split
+    · rename_i o rest hts
+      simp only [hts] at h
+      exact (saveHead_failed cfg σ s o rest _ rfl h).1
+    · rename_i hts
+      simp only [hts] at h
+      split at h <;> simp [okOut, Res.failed] at h
+  | close =>
+    simp only [step] at h ⊢
+    split
+    · rename_i o rest hts
+      simp only [hts] at h
+      exact (saveHead_failed cfg σ s o rest _ rfl h).1
+    · rename_i hts
+      simp [hts, okOut, Res.failed] at h
+  | rollback => simp [step, okOut, Res.failed] at h
 
 end PonyVerif.Model.Occ
